@@ -616,10 +616,21 @@ def r15_no_generator_reuse(ctx, rule):
                        'pass reads nothing whenever the first one ran to the end of the file')
 
 
+def _shared_rule(mod, name, **kw):
+    def run(ctx, rule):
+        import importlib
+        return getattr(importlib.import_module('sa.props.' + mod), name)(ctx, rule, **kw)
+    return run
+
+
 def rules(tier):
     return [('C14.R1', r1_rewind), ('C14.R2', r2_renormalisation), ('C14.R3', r3_skip_case),
             ('C14.R4', r4_restored_flags_live), ('C14.R5', lambda c, r: c08.r5_sav_keys(c, r, sections=('rule_info',), floor=4)), ('C14.R6', c01.r8_uniform_scale), ('C14.R7', r7_probabilities_immutable), ('C14.R8', r8_loader_stateless), ('C14.R9', c08.r11_restore_is_verbatim),
-            ('C14.R10', _seeding), ('C14.R11', r11_loaders_read_only), ('C14.R12', r12_options_not_rebound), ('C14.R13', r13_options_forwarded), ('C14.R14', r14_saved_flags_verbatim), ('C14.R15', r15_no_generator_reuse)]
+            ('C14.R10', _seeding), ('C14.R11', r11_loaders_read_only), ('C14.R12', r12_options_not_rebound), ('C14.R13', r13_options_forwarded), ('C14.R14', r14_saved_flags_verbatim), ('C14.R15', r15_no_generator_reuse),
+            # C14-ca: program_info['skip_case'] = args.skip_brute in the option parser
+            ('C14.R16', _shared_rule('plumbing', 'option_round_trip')),
+            # C20-ca: an option value replaced by a function of itself after parsing
+            ('C14.R17', _shared_rule('plumbing', 'options_not_rewritten'))]
 
 
 META = {
